@@ -10,6 +10,7 @@ Structural clauses decided (DESIGN.md §5 C20):
  R5 constructor: matchers exist iff matcher_enabled && protocol enabled; caches sized max_connections iff enabled
  R6 label conversion: name<-name, family<-class, variant<-flavor, kind<-ty in all three output types
 """
+from ..engine import cfg as C
 from ..engine import q as Q
 from ..engine import tables as TB
 from ..engine import terms as T
@@ -308,6 +309,82 @@ def rule_R6(ctx):
     ctx.floor("R6", "label conversions", n, 3)
 
 
+def _fallible_for_tcp(P, entry_names):
+    """Can one of these protocol entry points return Err for a well-formed TCP segment?  Explicit `Err(..)` constructions in the entry
+    point and its callees (workspace, depth 4) count unless they sit under the `protocol is not TCP` test (the unified caller has
+    already established is_tcp())."""
+    sites = []
+    for en in entry_names:
+        roots = [b for b in P.bodies.values() if b.path.endswith("::" + en) and b.crate in ("huginn_net_tcp", "huginn_net_http", "huginn_net_tls")]
+        for root in roots:
+            for b in Q.callgraph_closure(P, root, depth=4):
+                if b.kind == "Closure" and any(k in b.path for k in ("map_err", )):
+                    continue
+                S = None
+                for i, j, st in b.iter_stmts():
+                    if st["k"] == "assign" and st["r"]["k"] == "agg" and st["r"].get("variant") == "Err" and "Result" in (st["r"].get("path") or ""):
+                        if Q.in_tracing(st.get("span")) if st.get("span") else False:
+                            continue
+                        if S is None:
+                            S = T.Slicer(b, P)
+                        conds = Q.canon_conds(P, T.dom_conds(b, S, i))
+                        not_tcp = any(any(x[0] == "call" and x[1].endswith(("get_next_level_protocol", "get_next_header")) for x in T.walk(c[1] if c[0] != "cmp" else ("t", c[2], c[3])))
+                                      for c in conds)
+                        # error conversions inside `?` / map_err closures re-wrap an existing error: not a new source
+                        rewrap = b.kind == "Closure"
+                        if not not_tcp and not rewrap:
+                            sites.append((b, i))
+    return sites
+
+
+def rule_coupling(ctx):
+    """R3 (no error coupling): a protocol step that keeps per-connection state is never skipped because another protocol's step
+    failed on the same packet - otherwise the unified analyzer's state falls behind the stand-alone analyzer's and later packets differ"""
+    P = ctx.program
+    eb = P.body("huginn_net::process::execute_analysis")
+    S = T.Slicer(eb, P)
+    steps = {}
+    for blk, t in eb.calls():
+        nm = callee_of(t).rsplit("::", 1)[-1]
+        if nm in ("process_http_with_data", "process_tcp_with_data", "process_tls_with_data"):
+            stateful = any("TtlCache" in eb.locals[(a.get("m") or a.get("c") or {"l": 0})["l"]]["ty"] for a in t["args"] if ("m" in a or "c" in a))
+            steps[nm] = (blk, stateful)
+    ctx.floor("R3", "protocol steps in execute_analysis", len(steps), 3)
+    entry = {"process_http_with_data": ("process_http_ipv4", "process_http_ipv6"), "process_tcp_with_data": ("process_tcp_ipv4", "process_tcp_ipv6"),
+             "process_tls_with_data": ("process_tls_ipv4", "process_tls_ipv6")}
+    fall = {}
+    for nm, (blk, stateful) in sorted(steps.items()):
+        if not stateful:
+            ctx.ok("R3", "coupling:%s" % nm, "stateless step: skipping it cannot change later results", ctx.loc(eb, blk))
+            continue
+        deps = []
+        for o, (oblk, _st) in sorted(steps.items()):
+            if o == nm or not C.reaches(eb, oblk, blk):
+                continue
+            # is there an outcome of `o` (its Break / Err arm) from which this step is no longer reached?
+            for x in sorted(eb.reachable):
+                be = T.branch_edges(eb, S, x)
+                if be is None or be[0][0] != "variant" or not T.has_call(be[0][1], o):
+                    continue
+                if any(T.has_call(be[0][1], other) for other in steps if other != o):
+                    continue
+                for succ, lab in be[1].items():
+                    if not C.reaches(eb, succ, blk) and succ != blk:
+                        deps.append(o)
+        deps = sorted(set(deps))
+        bad = []
+        for o in deps:
+            if o not in fall:
+                fall[o] = _fallible_for_tcp(P, entry[o])
+            if fall[o]:
+                fb, fi = fall[o][0]
+                bad.append("%s (it can fail for a TCP segment, e.g. at %s)" % (o, ctx.loc(fb, fi)))
+        ctx.check(not bad, "R3", "coupling:%s" % nm,
+                  "runs regardless of the other protocols' outcome (precedes them, or they cannot fail for a TCP segment): depends on %s" % (deps or "nothing"),
+                  "%s, which updates per-connection state, only runs when %s succeeded: a segment rejected by that protocol is never shown to this one, so its "
+                  "reassembly/tracking state falls behind the stand-alone analyzer and a later, valid packet yields a different result" % (nm, "; ".join(bad)), ctx.loc(eb, blk))
+
+
 def rule_args(ctx):
     """R1 (argument routing): across the workspace no two same-typed, named arguments are passed in each other's positions"""
     from . import _argswap as AS
@@ -316,6 +393,7 @@ def rule_args(ctx):
 
 
 def run(ctx):
+    rule_coupling(ctx)
     rule_args(ctx)
     rule_R1(ctx)
     rule_R2_R3(ctx)
